@@ -1,4 +1,8 @@
 import AFModel.Freeze
+import AFModel.FreezeTree
+import AFProofs.Lemmas.FreezeTree
+import AFModel.RecCache
+import AFProofs.Lemmas.RecCache
 
 /-!
 # C13 — model answers depend only on the current composition
@@ -260,5 +264,305 @@ example : (frun chain FState.init [.freeze 0, .query 0 7, .unfreeze 0, .modify 1
 example : (frun chain FState.init [.freeze 0, .query 0 7, .query 0 8, .query 0 7, .query 1 8]).2 =
     [.done, .answered 7 0, .answered 8 0, .answered 7 0, .answered 8 0] := by decide
 example : (frun chain FState.init [.freeze 0, .modify 1]).2 = [.done, .rejected] := by decide
+
+end AF.C13
+
+/-!
+# Refinement to the composition (`AFModel/FreezeTree.lean`)
+
+The abstract `version` of a node is replaced by content: every live model is a composition tree
+(`AF.Node`), objects are addressed by their attribute path, the topology is the prefix order of paths
+(so the reachability laws `Lawful` assumed above are facts here), modifications edit the tree, the
+cache holds the values of the cached library functions, and the answers are the `Comp` functions
+(`count`, `paths`, `pathPriors`, `uniquePaths`, `uniqueIds`, `instFromVector`) of the subtree.
+-/
+
+namespace AF.C13
+open AF AF.FT
+
+/-- every live model satisfies the invariant (cached entries are the values of their functions on
+the composition now at that place; only frozen objects hold entries; everything below a frozen
+object is frozen) -/
+def SInv {V} (S : Store V) : Prop := ∀ s ∈ S.roots, TInv s
+
+/-- freshly composed models satisfy it -/
+theorem sinv_fresh {V} (ts : List (Node V)) : SInv ⟨ts.map TState.init⟩ := by
+  intro s hs
+  simp only [List.mem_map] at hs
+  obtain ⟨t, _, rfl⟩ := hs
+  exact tinv_init t
+
+theorem sstep_on_eq {V} [Inhabited V] (ops : Ops V) (S : Store V) (r : Nat) (op : TOp V) (s : TState V)
+    (hr : S.roots[r]? = some s) :
+    sstep ops S (.on r op) = (⟨S.roots.set r (tstep ops s op).1⟩, (tstep ops s op).2) := by
+  simp only [sstep, hr]
+
+theorem sstep_copy_eq {V} [Inhabited V] (ops : Ops V) (S : Store V) (r : Nat) (p : Path) (s : TState V)
+    (n : Node V) (hr : S.roots[r]? = some s) (hat : s.tree.at p = some n) :
+    sstep ops S (.copy r p) =
+      (⟨S.roots ++ [{ tree := n, frozen := fun x => s.frozen (p ++ x), cache := fun _ => TCache.empty }]⟩, .done) := by
+  simp only [sstep, hr, hat]
+
+theorem sstep_preserves {V} [Inhabited V] (ops : Ops V) (S : Store V) (op : SOp V) (h : SInv S)
+    (hop : sopSafe S op = true) : SInv (sstep ops S op).1 := by
+  cases op with
+  | on r top =>
+    cases hr : S.roots[r]? with
+    | none => simpa [sstep, hr] using h
+    | some s =>
+      have hs : s ∈ S.roots := List.mem_of_getElem? hr
+      have hok : topOk s top := by
+        cases top <;> simp only [topOk]
+        case unfreeze p => simpa [sopSafe, hr] using hop
+      rw [sstep_on_eq ops S r top s hr]
+      intro s' hs'
+      rcases List.mem_or_eq_of_mem_set hs' with h1 | rfl
+      · exact h s' h1
+      · exact tstep_preserves ops s top (h s hs) hok
+  | copy r p =>
+    cases hr : S.roots[r]? with
+    | none => simpa [sstep, hr] using h
+    | some s =>
+      have hs : s ∈ S.roots := List.mem_of_getElem? hr
+      cases hat : s.tree.at p with
+      | none => simpa [sstep, hr, hat] using h
+      | some n =>
+        rw [sstep_copy_eq ops S r p s n hr hat]
+        intro s' hs'
+        simp only [List.mem_append, List.mem_singleton] at hs'
+        rcases hs' with h1 | rfl
+        · exact h s' h1
+        · refine ⟨fun _ m _ => cacheOK_empty m, fun _ _ => rfl, ?_⟩
+          intro q q' hq hqq
+          exact (h s hs).frozen_down (p ++ q) (p ++ q') hq ((List.prefix_append_right_inj p).mpr hqq)
+
+/-- all operations of a history are covered (each unfreeze safe when it happens) -/
+def shistoryOk {V} [Inhabited V] (ops : Ops V) : Store V → List (SOp V) → Prop
+  | _, [] => True
+  | S, op :: rest => sopSafe S op = true ∧ shistoryOk ops (sstep ops S op).1 rest
+
+theorem shistory_preserves {V} [Inhabited V] (ops : Ops V) : ∀ (hist : List (SOp V)) (S : Store V),
+    SInv S → shistoryOk ops S hist → SInv (srun ops S hist).1
+  | [], S, h, _ => by simpa [srun] using h
+  | op :: rest, S, h, hok => by
+    simp only [srun]
+    exact shistory_preserves ops rest _ (sstep_preserves ops S op h hok.1) hok.2
+
+/-- **History independence over real compositions.** Start from any freshly composed models; run
+any covered history — queries of any kind, freezes, safe unfreezes, attribute assignments (priors,
+constants, whole components, tuple members) and removals — accepted or rejected —, failing calls,
+copies, on any of the live models. Then every question asked of any object of any live model is
+answered with the `Comp` answer of the composition *now* at that place. -/
+theorem tree_history_independent {V} [Inhabited V] (ops : Ops V) (ts : List (Node V))
+    (hist : List (SOp V)) (hok : shistoryOk ops ⟨ts.map TState.init⟩ hist)
+    (r : Nat) (p : Path) (q : TQuery V) (s : TState V) (n : Node V)
+    (hr : (srun ops ⟨ts.map TState.init⟩ hist).1.roots[r]? = some s)
+    (hat : s.tree.at p = some n) (ho : n.isObj = true) :
+    (sstep ops (srun ops ⟨ts.map TState.init⟩ hist).1 (.on r (.query p q))).2 =
+      .answered (tanswer ops n q) := by
+  have hinv := shistory_preserves ops hist _ (sinv_fresh ts) hok
+  have hs : TInv s := hinv s (List.mem_of_getElem? hr)
+  obtain ⟨c, hc, rfl⟩ := tstep_query_fresh ops s p q n hs hat ho
+  rw [sstep_on_eq ops _ r _ s hr]; exact hc
+
+/-- the answer does not depend on being frozen: the same state with the flags of the object
+flipped answers the same (one statement for "frozen or not") -/
+theorem tree_query_frozen_or_not {V} [Inhabited V] (ops : Ops V) (s : TState V) (p : Path) (q : TQuery V)
+    (n : Node V) (h : TInv s) (hat : s.tree.at p = some n) (ho : n.isObj = true) :
+    (tstep ops s (.query p q)).2 = .answered (tanswer ops n q) ∧
+    (tstep ops (TState.init s.tree) (.query p q)).2 = .answered (tanswer ops n q) := by
+  obtain ⟨c, hc, rfl⟩ := tstep_query_fresh ops s p q n h hat ho
+  obtain ⟨c', hc', rfl⟩ := tstep_query_fresh ops (TState.init s.tree) p q n (tinv_init _) hat ho
+  exact ⟨hc, hc'⟩
+
+/-- **A frozen model rejects assignment and removal** and is left unchanged. -/
+theorem tree_frozen_rejects {V} [Inhabited V] (ops : Ops V) (s : TState V) (p : Path) (n : Node V)
+    (k : String) (v : Node V) (hat : s.tree.at p = some n) (hf : s.frozen p = true) :
+    tstep ops s (.setAttr p k v) = (s, .rejected) ∧ tstep ops s (.remove p k) = (s, .rejected) := by
+  simp [tstep, tmodify, hat, hf]
+
+/-- **Changes made after unfreezing are reflected** (1): an assignment on an unfrozen collection puts
+the value at its place in the composition … -/
+theorem tree_set_reflected {V} [Inhabited V] (ops : Ops V) (s : TState V) (p : Path)
+    (attrs : List (String × Node V)) (k : String) (v : Node V)
+    (hat : s.tree.at p = some (.coll attrs)) (hf : s.frozen p = false) :
+    (tstep ops s (.setAttr p k v)).1.tree.at (p ++ [k]) = some v := by
+  simp only [tstep, tmodify, hat, hf, modPlan, Bool.false_eq_true, if_false]
+  rw [at_append, at_updAt_self, hat]
+  simp [Node.withAttrs, Node.attrs, at_cons, at_nil, lookupAttr_setKey_self]
+
+/-- … a removal takes it away … -/
+theorem tree_remove_reflected {V} [Inhabited V] (ops : Ops V) (s : TState V) (p : Path)
+    (attrs : List (String × Node V)) (k : String)
+    (hat : s.tree.at p = some (.coll attrs)) (hf : s.frozen p = false) :
+    (tstep ops s (.remove p k)).1.tree.at (p ++ [k]) = none := by
+  simp only [tstep, tmodify, hat, hf, modPlan, Bool.false_eq_true, if_false]
+  rw [at_append, at_updAt_self, hat]
+  simp [Node.withAttrs, Node.attrs, at_cons, lookupAttr_eraseKey_self]
+
+/-- … (2) and the very next question — of the modified object — is answered from the modified
+composition, whatever was cached before. -/
+theorem tree_modify_then_query {V} [Inhabited V] (ops : Ops V) (s : TState V) (p : Path) (op : TOp V)
+    (n : Node V) (k : String) (f) (q : TQuery V) (h : TInv s)
+    (hat : s.tree.at p = some n) (hf : s.frozen p = false) (hplan : modPlan n op = some (k, f))
+    (ho : (n.withAttrs (f n.attrs)).isObj = true) :
+    (tmodify s p op).2 = .done ∧
+    (tstep ops (tmodify s p op).1 (.query p q)).2 = .answered (tanswer ops (n.withAttrs (f n.attrs)) q) := by
+  have hinv : TInv (tmodify s p op).1 :=
+    tmodify_preserves s p op h (fun n k f => modPlan_keeps n op k f)
+  have hat' : (tmodify s p op).1.tree.at p = some (n.withAttrs (f n.attrs)) := by
+    simp only [tmodify, hat, hf, hplan, Bool.false_eq_true, if_false]
+    rw [at_updAt_self, hat]; rfl
+  obtain ⟨c, hc, rfl⟩ := tstep_query_fresh ops _ p q _ hinv hat' ho
+  refine ⟨?_, hc⟩
+  simp only [tmodify, hat, hf, hplan, Bool.false_eq_true, if_false]
+
+/-- **Copies.** A copy (deepcopy / `.copy()` / pickle round trip) of an object answers every
+question like the original at copy time, keeps the frozen flag and starts with a cold cache. -/
+theorem copy_answers_like_original {V} [Inhabited V] (ops : Ops V) (S : Store V) (h : SInv S)
+    (r : Nat) (p : Path) (q : TQuery V) (s : TState V) (n : Node V)
+    (hr : S.roots[r]? = some s) (hat : s.tree.at p = some n) (ho : n.isObj = true) :
+    (sstep ops S (.copy r p)).2 = .done ∧
+    (sstep ops (sstep ops S (.copy r p)).1 (.on S.roots.length (.query [] q))).2 = .answered (tanswer ops n q) ∧
+    (sstep ops S (.on r (.query p q))).2 = .answered (tanswer ops n q) := by
+  have hinv' := sstep_preserves ops S (.copy r p) h rfl
+  rw [sstep_copy_eq ops S r p s n hr hat] at hinv' ⊢
+  have hnew : (S.roots ++ [({ tree := n, frozen := fun x => s.frozen (p ++ x), cache := fun _ => TCache.empty } : TState V)])[S.roots.length]? =
+      some { tree := n, frozen := fun x => s.frozen (p ++ x), cache := fun _ => TCache.empty } := by
+    simp
+  refine ⟨rfl, ?_, ?_⟩
+  · obtain ⟨c, hc, rfl⟩ := tstep_query_fresh ops _ [] q n (hinv' _ (List.mem_of_getElem? hnew)) (at_nil n) ho
+    rw [sstep_on_eq ops _ _ _ _ hnew]; exact hc
+  · obtain ⟨c, hc, rfl⟩ := tstep_query_fresh ops s p q n (h s (List.mem_of_getElem? hr)) hat ho
+    rw [sstep_on_eq ops _ r _ s hr]; exact hc
+
+theorem copy_keeps_frozen_flag {V} [Inhabited V] (ops : Ops V) (S : Store V)
+    (r : Nat) (p : Path) (s : TState V) (n : Node V)
+    (hr : S.roots[r]? = some s) (hat : s.tree.at p = some n) :
+    ∃ s', (sstep ops S (.copy r p)).1.roots[S.roots.length]? = some s' ∧ s'.tree = n ∧
+      s'.frozen [] = s.frozen p ∧ ∀ x, s'.cache x = TCache.empty := by
+  rw [sstep_copy_eq ops S r p s n hr hat]
+  refine ⟨{ tree := n, frozen := fun x => s.frozen (p ++ x), cache := fun _ => TCache.empty }, ?_, rfl, ?_, fun _ => rfl⟩
+  · simp
+  · simp
+
+/-- **Independence.** An operation on one live model leaves every other live model (the original of a
+copy, its copies, unrelated models) exactly as it was; a copy leaves all existing models as they were. -/
+theorem other_models_untouched {V} [Inhabited V] (ops : Ops V) (S : Store V) (r r' : Nat) (op : TOp V)
+    (hne : r ≠ r') : (sstep ops S (.on r op)).1.roots[r']? = S.roots[r']? := by
+  simp only [sstep]
+  cases hr : S.roots[r]? with
+  | none => rfl
+  | some s => simp [List.getElem?_set_ne hne]
+
+theorem copy_leaves_existing {V} [Inhabited V] (ops : Ops V) (S : Store V) (r r' : Nat) (p : Path)
+    (hlt : r' < S.roots.length) : (sstep ops S (.copy r p)).1.roots[r']? = S.roots[r']? := by
+  cases hr : S.roots[r]? with
+  | none => simp only [sstep, hr]
+  | some s =>
+    cases hat : s.tree.at p with
+    | none => simp only [sstep, hr, hat]
+    | some n =>
+      rw [sstep_copy_eq ops S r p s n hr hat]
+      exact List.getElem?_append_left hlt
+
+/-! ## witnesses -/
+
+def unitOps : Ops Nat where
+  bin := fun _ a b => a + b
+  un := fun _ a => a
+  nameLe := fun a b => decide (a ≤ b)
+  lt := fun a b => decide (a < b)
+  le := fun a b => decide (a ≤ b)
+
+/-- `Collection(g=Model(P2), k=<prior 3>)`, the prior 3 also being `g.b` -/
+def wtree : Node Nat :=
+  .coll [("g", .model "P2" ["a", "b"] [("a", .prior 1), ("b", .prior 3)]), ("k", .prior 3)]
+
+def outNat : TOut Nat → Nat
+  | .answered (.nat k) => k
+  | .answered (.natsA l) => 100 + l.length
+  | .rejected => 77
+  | .done => 88
+  | _ => 99
+
+/-- the uncovered case on real content: unfreezing the component below its frozen parent, fixing a
+parameter of the component — the parent still counts it (known finding C13-child-unfreeze) -/
+theorem tree_stale_after_child_unfreeze_refuted :
+    ((srun unitOps ⟨[TState.init wtree]⟩
+      [.on 0 (.freeze []), .on 0 (.query [] .count), .on 0 (.unfreeze ["g"]),
+       .on 0 (.setAttr ["g"] "a" (.const 5)), .on 0 (.query [] .count), .on 0 (.query ["g"] .count)]).2.map outNat
+      = [88, 2, 88, 88, 2, 1]) ∧
+    (sopSafe (srun unitOps ⟨[TState.init wtree]⟩ [.on 0 (.freeze []), .on 0 (.query [] .count)]).1
+      (.on 0 (.unfreeze ["g"])) = false) := by
+  decide
+
+/-- non-vacuity: the same history with the unfreeze applied to the parent is covered, and fresh -/
+example : shistoryOk unitOps ⟨[TState.init wtree]⟩
+    [.on 0 (.freeze []), .on 0 (.query [] .count), .on 0 (.unfreeze []),
+     .on 0 (.setAttr ["g"] "a" (.const 5)), .on 0 (.query [] .count)] := by
+  simp only [shistoryOk]; decide
+example : (srun unitOps ⟨[TState.init wtree]⟩
+    [.on 0 (.freeze []), .on 0 (.query [] .count), .on 0 (.unfreeze []),
+     .on 0 (.setAttr ["g"] "a" (.const 5)), .on 0 (.query [] .count), .on 0 (.freeze ["g"]),
+     .on 0 (.setAttr ["g"] "b" (.const 5)), .copy 0 ["g"], .on 1 (.query [] .ids),
+     .on 1 (.setAttr [] "b" (.const 5)), .on 1 (.unfreeze []), .on 1 (.setAttr [] "b" (.const 5)),
+     .on 1 (.query [] .count), .on 0 (.query ["g"] .count), .on 0 (.remove [] "k"), .on 0 (.query [] .count)]).2.map outNat
+    = [88, 2, 88, 88, 1, 88, 77, 88, 101, 77, 88, 88, 0, 1, 88, 1] := by
+  decide
+example : wtree.at ["g"] = some (.model "P2" ["a", "b"] [("a", .prior 1), ("b", .prior 3)]) ∧
+    (Node.model "P2" ["a", "b"] [("a", Node.prior (V := Nat) 1), ("b", .prior 3)]).isObj = true :=
+  ⟨by simp [wtree, at_cons, at_nil, Node.attrs, lookupAttr], rfl⟩
+
+end AF.C13
+
+/-!
+# The process-wide recursion cache (`AFModel/RecCache.lean`)
+
+`DynamicRecursionCache` is shared by every walk of every model in the process. Whatever the wrapped
+function does on the item — recurse into any parts in any order, meet cycles, raise at any depth — the
+cache holds after the call exactly what it held before it: no entry of a finished call survives, so no
+later call (on the same object, or on another object that received the same `id()`) is answered with
+the placeholder of a call that is over.
+-/
+
+namespace AF.C13
+open AF AF.RC
+
+/-- **A call leaves the recursion cache as it found it**, raising or not. -/
+theorem recursion_cache_restored (s : RState) (c : RCall) : (rcall s c).1.cache = s.cache :=
+  rcall_cache s c
+
+/-- after any sequence of top-level calls (failing or not) the cache is empty again -/
+theorem recursion_cache_empty_after_calls (cs : List RCall) (tr : List Nat) :
+    (rcalls ⟨[], tr⟩ cs).1.cache = [] :=
+  rcalls_cache cs ⟨[], tr⟩
+
+/-- a placeholder is returned only for an item whose call is in progress -/
+theorem promise_only_in_progress (s : RState) (id : Nat) (raises : Bool) (children : List RCall) :
+    (rcall s (.node id raises children)).2 = .promise ↔ id ∈ s.cache := by
+  unfold rcall
+  by_cases h : id ∈ s.cache
+  · rw [if_pos (by simpa using h)]; simp [h]
+  · rw [if_neg (by simpa using h)]
+    simp only [h, iff_false]
+    split
+    · simp
+    · split <;> simp
+
+/-- **No poisoned entry**: whatever calls came earlier in the process — including failing ones on the
+same id — a top-level call is never answered with a placeholder. -/
+theorem no_poisoned_entry (cs : List RCall) (id : Nat) (raises : Bool) (children : List RCall) :
+    (rcall (rcalls ⟨[], []⟩ cs).1 (.node id raises children)).2 ≠ .promise := by
+  intro h
+  have := (promise_only_in_progress _ id raises children).mp h
+  rw [recursion_cache_empty_after_calls] at this
+  cases this
+
+/-- non-vacuity: a walk that meets a cycle (inner item 1 = outer item 1), then fails at depth 2; the
+same object is then walked again without a failure -/
+example : (rcalls ⟨[], []⟩ [.node 1 false [.node 2 false [.node 1 false []], .node 3 false [.node 4 true [], .node 5 false []]],
+                              .node 1 false [.node 2 false []]]) =
+    (⟨[], [1, 2, 3, 4, 1, 2]⟩, [.raised, .ok]) := by decide
 
 end AF.C13
